@@ -200,6 +200,9 @@ func (c *ClusterInfo) GetLookupdProducers(lookupdHTTPAddrs []string) (Producers,
 			lock.Lock()
 			defer lock.Unlock()
 			for _, producer := range resp.Producers {
+				if producer == nil {
+					continue // a null element in the upstream's array
+				}
 				key := producer.TCPAddress()
 				p, ok := producersByAddr[key]
 				if !ok {
@@ -267,6 +270,9 @@ func (c *ClusterInfo) GetLookupdTopicProducers(topic string, lookupdHTTPAddrs []
 			lock.Lock()
 			defer lock.Unlock()
 			for _, p := range resp.Producers {
+				if p == nil {
+					continue // a null element in the upstream's array
+				}
 				for _, pp := range producers {
 					if p.HTTPAddress() == pp.HTTPAddress() {
 						goto skip
@@ -587,6 +593,9 @@ func (c *ClusterInfo) GetNSQDStats(producers Producers,
 			lock.Lock()
 			defer lock.Unlock()
 			for _, topic := range resp.Topics {
+				if topic == nil {
+					continue // a null element in the upstream's array
+				}
 				topic.Node = addr
 				topic.Hostname = p.Hostname
 				topic.MemoryDepth = topic.Depth - topic.BackendDepth
@@ -595,6 +604,15 @@ func (c *ClusterInfo) GetNSQDStats(producers Producers,
 					continue
 				}
 				topicStatsList = append(topicStatsList, topic)
+
+				channels := topic.Channels[:0]
+				for _, channel := range topic.Channels {
+					if channel == nil {
+						continue
+					}
+					channels = append(channels, channel)
+				}
+				topic.Channels = channels
 
 				for _, channel := range topic.Channels {
 					channel.Node = addr
@@ -615,11 +633,17 @@ func (c *ClusterInfo) GetNSQDStats(producers Producers,
 						}
 						channelStatsMap[key] = channelStats
 					}
+					clients := channel.Clients[:0]
 					for _, c := range channel.Clients {
+						if c == nil {
+							continue
+						}
 						c.Node = addr
 						c.NodeTopologyRegion = p.TopologyRegion
 						c.NodeTopologyZone = p.TopologyZone
+						clients = append(clients, c)
 					}
+					channel.Clients = clients
 					channelStats.Add(channel)
 				}
 			}
